@@ -304,4 +304,75 @@ PROPS = {
                         "known finding D21: NaN / Inf vertex coordinates are accepted by Polyline/Loop/Polygon.Decode and make the exact "
                         "predicates panic (clause panic-nonfinite-vertex)"],
     },
+    "C07": {
+        # (generator, quick n, thorough n); the exact O(n*m) oracle costs about 0.3 s per line on average
+        "generators": [("c07", 1600, 24000)],
+        "modules": ["S2.Relate", "S2.Nesting", "S2.Pred", "S2.Exact"],
+        "rule": "rel: pairs of valid loops — concentric regular polygons (the D1 shape: both sides with multi-cell indexes and edge-free "
+                "interior cells), nearly equal radii, star-shaped random loops at every distance (disjoint / crossing / nested), "
+                "one or both larger than a hemisphere, B = every s-th vertex of A (1..n shared vertices), B = a chain of A closed by a chord "
+                "(shared edges, same and opposite direction), B touching A in one vertex / one reversed edge, identical / rotated / reversed "
+                "loops, cell loops (same cell, descendants at a corner / edge / interior, edge and diagonal neighbours, overlapping blocks of "
+                "one grid, blocks of up to 16x16 cells with long exactly shared chains of grid vertices), empty and full loops, a small loop "
+                "deep inside / outside a large one; centres at poles, face centres, cube corners, face seams and random; vertex counts 3..4000 "
+                "with n*m <= 10^6 (thorough 4*10^6); EVERY pair is evaluated on (A,B), (notA,B), (A,notB), (notA,notB) through Invert() on clones, "
+                "through single-loop Polygons, ContainsNested and compareBoundary. The st: token records the branches the parallel index walk "
+                "visits (edge-free-cell branch, cellCrossesAnySubcell). nest: laminar loop families (depth <= 5, siblings, cells sharing one "
+                "vertex) in every permutation (<= 4 loops) or 6 random orders. prel: polygons with holes / islands / several shells and their "
+                "Polygon.Invert() complements. non-trivial = rel line whose two loops both have >= 3 vertices, nest / prel lines; "
+                "distinct = distinct (op, arguments)",
+        "nontrivial": lambda l: (l.startswith("rel ") and l.split(" ")[1].count(";") >= 2 and l.split(" ")[2].count(";") >= 2)
+                                or l.startswith("nest ") or l.startswith("prel "),
+        "trusted_base": [
+            "exact orientation predicate of the oracle = sign of the integer determinant, Pred.exactDecisionI (symbolic perturbation) when it is 0; "
+            "its laws (SgLaws: antisymmetry, rotation, non-zero on distinct points) are hypotheses of the C07 theorems and theorems of C02",
+            "hook s2/verif_export_c07.go (compareBoundary, originInside, findVertex, read-only replay of the index walk for branch counters)",
+            "s2.Ortho and OriginPoint() are modelled bit-exactly in the soft-float and compared (ops c07ortho, c07const)",
+            "Polygon.Invert chooses the loop to invert by TurningAngle (libm): the complement is taken from the implementation and CHECKED "
+            "(depths = exact containment counts, pre-order), not predicted",
+            "geometry assumed, not proved: point-in-loop inversion law and 'all vertices of a loop lie on one side of a loop it neither "
+            "crosses nor touches' (ComplementHyps), Jordan curve theorem (ExactRelationIsPointSet); exercised by the sound-con / sound-dis "
+            "point samples on every rel / prel line",
+        ],
+        "assumptions": [
+            "loops are valid: unit vertices, >= 3 pairwise distinct vertices, no antipodal neighbours, no two edges crossing or touching "
+            "(the generator checks every constructed loop by brute force); polygons satisfy the documented restrictions",
+            "ContainsNested is compared only when its documented precondition holds (no crossing, no shared edge, nested or disjoint)",
+        ],
+        "partial": ["label: partial (wedge dualities, set-algebra laws of the exact relation and nesting are theorems; that the index walk "
+                    "equals the exact relation is decided by correspondence)",
+                    "IndexWalkAgrees, ExactRelationIsPointSet, PolygonComplementLaws are stated as def : Prop, not proved"],
+    },
+    "C12": {
+        "generators": [("c12", 1500, 20000)],
+        "modules": ["S2.CellM", "S2.STUV", "S2.Hilbert", "S2.CellID", "S2.F64", "S2.Exact"],
+        "rule": "cells: exhaustive levels 0-2 (thorough 0-4) plus structured random cells of every level (cube corners, face edges, "
+                "the four cells around each pole, coarse grid lines, uniform); per cell: Children vs direct construction (cellch), RectBound/"
+                "CapBound on 4 vertices + 4 edge midpoints + uv centre + the |u|,|v|-minimal boundary points + random edge/interior points, "
+                "each unnormalized and normalized (cellbound); targets (cellpt/cidpt): vertices, exact edge points, interior, centre, just "
+                "outside an edge/corner by 2^-53..1 of the cell size, cube corners, antipodes of centre/vertex/edge point, poles of the "
+                "four edge great circles (+- perturbation 2^-48..2^-8), points on the extension of an edge, axis points, face seams, "
+                "2^-60..1 from a vertex, ~90 degrees from the centre, uniform, each optionally +-1..3 ulps per coordinate; edges (celledge): "
+                "pairs of such targets, grazing a vertex, ending at a vertex, running along a cell edge, short edges; cell pairs (cellcell): "
+                "same, edge/all neighbours, nested, antipodal, neighbours at other levels, neighbours of neighbours, random. "
+                "non-trivial = any cellpt/celledge/cellcell line whose reported minimum distance is non-zero, and every cellch line of a "
+                "non-leaf cell; distinct = distinct (op, arguments)",
+        "nontrivial": lambda l: (l.split(" ", 1)[0] in ("cellpt", "celledge", "cellcell") and " = " in l
+                                 and (l.split(" = ")[1].split() + ["", ""])[1 if l.startswith("cellpt") else 0] != "0000000000000000")
+                                or (l.startswith("cellch") and " = T" in l),
+        "trusted_base": [
+            "Oracle.C12Judge (exact integer geometry + integer-sqrt enclosures, K=220 fractional bits) is the judge of every distance "
+            "claim; it is hand-written, validated against an independent 80-digit brute-force minimisation on the failing cases",
+            "geometry assumed by the judge (as by the library): when an arc and a convex quadrilateral (or two quadrilaterals) do not meet, "
+            "their minimum distance is attained at a vertex of one of them",
+            "documented error used by the judge (upper bound of the sum of minUpdateInteriorDistanceMaxError, s1.ChordAngle.MaxPointError and "
+            "the tolerance of s2/cell_test.go: 1e-15 rad up to 60 degrees, 1e-12 rad beyond)",
+            "RectBound / CapBound (libm) and DistanceToEdge / DistanceToCell (robust cross product, edge crosser) are not modelled: judged on "
+            "Go's outputs only; Go's LatLngFromPoint values travel on the line",
+            "hook s2/verif_export_c12.go (orientation field of a Cell, centerUV, Cap radius as chord angle)",
+        ],
+        "assumptions": ["targets are finite non-zero vectors normalized to within r3.Vector.Normalize's guarantee; edge endpoints are never antipodal"],
+        "partial": ["ContainsClaim (float margin of ContainsPoint)", "DistanceAttained / DistanceLowerBound / MaxDistanceUpperBound (numeric; "
+                    "DistanceLowerBound and MaxDistanceUpperBound are REFUTED for the current code: distanceLowerBound_false, maxDistanceUpperBound_false)"],
+    },
 }
